@@ -16,7 +16,7 @@ COMPONENTS = ["producer"]
 MONITORS = {
     "C01": ["c01-once", "c01-acked", "c01-acks0", "c01-payloads", "c01-resolved"],
     "C09": ["c09-order", "c09-onebatch", "c09-retry", "c09-attempts", "c09-geometric"],
-    "C19": ["c19-accounting", "c19-dispatch", "c19-cancel", "c19-detach", "c19-stop"],
+    "C19": ["c19-accounting", "c19-dispatch", "c19-cancel", "c19-detach", "c19-stop", "c19-schedule"],
 }
 WHAT = {
     "c01-once": "a send Deferred fired more than once",
@@ -34,6 +34,7 @@ WHAT = {
     "c19-cancel": "cancel of a queued send did not remove it / cancel of a dispatched send did more than detach",
     "c19-detach": "after a send was cancelled late (after dispatch) a batch resolved while another of its sends had not fired: the cancel did more than detach its caller",
     "c19-stop": "stop() left a send outstanding, failed it with a non-cancellation error, or something was transmitted in/after stop()",
+    "c19-schedule": "the batch_every_t looping call did not tick on its schedule (start+k*T, late calls collapsed, never while not due / stopped), or something else ran while a tick was overdue",
 }
 CORPUS = os.path.join(core.VERIF, "corpus", "producer")
 TRUSTED = [
@@ -61,7 +62,7 @@ def trace_lines(real, monitors):
     return tl
 
 
-def evaluate(pid, runs, model=core.run_model):
+def evaluate(pid, runs, model=core.run_model, monitors=None):
     """runs: [(scenario, RealRun)].  -> [(scenario, real, disagreement|None, [failed monitor names])]"""
     lines = []
     for _scn, real in runs:
@@ -73,7 +74,7 @@ def evaluate(pid, runs, model=core.run_model):
         out.append([scn, real, D.diff(real, ans[k:k + n]), []])
         k += n
     tl, ends = [], []
-    mons = MONITORS[pid]
+    mons = MONITORS[pid] if monitors is None else monitors
     for scn, real, _d, _f in out:
         tl += trace_lines(real, mons)
         ends.append(len(tl) - 1)
@@ -417,7 +418,7 @@ def search(ctx, res, broken, pid):
     # 1. around the disagreeing scenarios: their prefixes and continuations
     for b in broken:
         w = b.get("what")
-        if b["kind"] == "correspondence" and isinstance(w, dict) and "scenario" in w:
+        if b["kind"] == "correspondence" and isinstance(w, dict) and "scenario" in w and not w["scenario"].get("fullstack"):
             scn = w["scenario"]
             runs = []
             rng = random.Random(ctx.seed)
@@ -453,6 +454,8 @@ def search(ctx, res, broken, pid):
 def replay(ctx, data, pid):
     f = data.get("failure") or {}
     scn = f.get("scenario")
+    if scn is None and data.get("fullstack"):
+        scn = data  # a bare full-stack script
     if scn is None:
         for b in data.get("no_longer_checks", []):
             w = b.get("what")
